@@ -25,6 +25,7 @@ REPO = os.environ.get('DDSMT_REPO', '/repo')
 SPECS = os.path.join(VERIF, 'specs')
 PY = '/venv/bin/python'
 NCPU = os.cpu_count() or 4
+MAXSHOWN = int(os.environ.get('VERIF_MAX_SHOWN', '25'))
 
 _scratch = None
 
@@ -208,8 +209,9 @@ def run_tlc(module,
     res.errors = other_err
     res.ok = finished and not res.violated and not other_err and p.returncode == 0
     if other_err and not res.violated:
+        i = out.find('Error:')
         raise MachineryError('TLC error: ' + '; '.join(other_err[:3]) + '\n' +
-                             out[-3000:])
+                             out[i:i + 2500] + '\n...\n' + out[-1000:])
     if not finished and not res.violated:
         raise MachineryError('TLC did not finish:\n' + out[-3000:])
     return res
@@ -325,7 +327,7 @@ class Report:
                               os.path.join(VERIF, 'replays', 'tmp'))
         shown = 0
         for sig, desc, replay in self.viol:
-            if shown >= 25:
+            if shown >= MAXSHOWN:
                 shown += 1
                 continue
             os.makedirs(rdir, exist_ok=True)
@@ -341,13 +343,13 @@ class Report:
                     fh,
                     indent=1,
                     default=str)
-            if shown < 25:
+            if shown < MAXSHOWN:
                 print(f'VIOLATION property={self.pid} replay={path}')
                 print(f'  signature: {sig}')
                 print(f'  {desc}'[:600])
             shown += 1
-        if shown > 25:
-            print(f'  ... {shown - 25} more violations (not written out)')
+        if shown > MAXSHOWN:
+            print(f'  ... {shown - MAXSHOWN} more violations (not written out)')
         ev = {
             'property_id': self.pid,
             'tier': self.tier,
